@@ -25,6 +25,15 @@ var verifDir = func() string {
 	return "/verif"
 }()
 
+// outDir: where evidence and replay artefacts go (VERIF_OUT, default the
+// verification directory; scratch runs against seeded changes write elsewhere).
+var outDir = func() string {
+	if d := os.Getenv("VERIF_OUT"); d != "" {
+		return d
+	}
+	return verifDir
+}()
+
 type knownFinding struct {
 	Status   string `json:"status"` // known | fixed
 	Property string `json:"property"`
@@ -175,7 +184,7 @@ func check(prop, tier string) int {
 			} else {
 				nviol++
 				row.Verdict = "VIOLATION: " + v.Message
-				p := explore.WriteReplay(filepath.Join(verifDir, "replays"), prop, v)
+				p := explore.WriteReplay(filepath.Join(outDir, "replays"), prop, v)
 				fmt.Printf("VIOLATION property=%s replay=%s\n", prop, p)
 				fmt.Printf("  %s\n  config %s\n", v.Message, v.Config)
 				exit = 1
@@ -212,8 +221,8 @@ func check(prop, tier string) int {
 			nviol++
 			verdict = "VIOLATION"
 			if exit == 0 || nviol <= 5 {
-				os.MkdirAll(filepath.Join(verifDir, "replays"), 0o755)
-				p := filepath.Join(verifDir, "replays", fmt.Sprintf("%s-pure-%d.json", prop, nviol))
+				os.MkdirAll(filepath.Join(outDir, "replays"), 0o755)
+				p := filepath.Join(outDir, "replays", fmt.Sprintf("%s-pure-%d.json", prop, nviol))
 				b, _ := json.MarshalIndent(map[string]any{"engine": "pure", "property": prop, "clause": v.Clause, "input": v.Input, "got": v.Got, "go_test": v.GoTest}, "", " ")
 				os.WriteFile(p, b, 0o644)
 				fmt.Printf("VIOLATION property=%s replay=%s\n  %s\n  input %s -> %s\n", prop, p, v.Clause, v.Input, v.Got)
@@ -265,8 +274,8 @@ func check(prop, tier string) int {
 		"violations":  nviol,
 	}
 	b, _ := json.MarshalIndent(ev, "", " ")
-	os.MkdirAll(filepath.Join(verifDir, "evidence"), 0o755)
-	if err := os.WriteFile(filepath.Join(verifDir, "evidence", prop+".json"), b, 0o644); err != nil {
+	os.MkdirAll(filepath.Join(outDir, "evidence"), 0o755)
+	if err := os.WriteFile(filepath.Join(outDir, "evidence", prop+".json"), b, 0o644); err != nil {
 		fmt.Fprintln(os.Stderr, err)
 		return 2
 	}
